@@ -6,16 +6,16 @@ sys.path.insert(0, HERE)
 from rules import registry as REG
 
 TECH = {
- "C01": "static analysis: THIR/MIR rules over the autograd engine and all backward closures (slot arity+gating, shared-slot clone provenance, counter-guard control dependence, shape typestate, additive merge)",
- "C02": "static analysis: parameter-dependence taint, linearity type system and accumulate-on-scatter rule over every backward closure (THIR via rustc_private driver)",
+ "C01": "static analysis: THIR/MIR rules over the autograd engine and all backward closures (slot arity+gating, Boolean evaluation of every attach guard incl. the attach primitives, shared-slot clone provenance, counter-guard control dependence, shape typestate, additive merge)",
+ "C02": "static analysis: parameter-dependence taint, linearity type system and accumulate-on-scatter rule over every backward closure; symbolic shape type system for the matrix product's deltas under all transposition flags; axis (units-of-measure) type system for the convolution index arithmetic and sibling agreement of the window-count formula; reduce-last rule (THIR via rustc_private driver)",
  "C03": "static analysis: shape typestate over the engine's delta/gradient sinks (THIR dataflow)",
  "C08": "static analysis: type walk for interior mutability, unsafe scan, MIR place-context scan for writes/mutable borrows, public-API signature scan, destructor scan",
  "C09": "static analysis: exhaustive Boolean evaluation of every constructor's attach guard, slot gating, flag-writer inventory and stop/restore pairing",
  "C10": "static analysis: engine-state layering (who touches counters/deltas/gradients), take-only delta reads, additive accumulate arms",
  "C11": "static analysis: single invocation site of the derivative closure and control dependence of counting/recursion on the shared consumer counter",
- "C12": "static analysis: field-by-field provenance of Clone, MIR scan for re-seated shared slots, children-by-clone at every attachment site, destructor scan, equality field set",
+ "C12": "static analysis: field-by-field provenance of Clone, MIR scan for re-seated shared slots, who-may-write rule for the per-node slots shared by clones, children-by-clone at every attachment site, destructor scan, equality field set",
  "C13": "static analysis: dataflow of the value stored over each parameter in Optimizer::update (fresh constructor, same dimensions, tracked) and order/subset agreement of its producer and consumer traversals",
- "C14": "static analysis: provenance of the parameters installed by update, optimizer state inventory (interior mutability), retained-slot / static inventory of Model, layers and optimizers",
+ "C14": "static analysis: provenance of the parameters installed by update, optimizer state inventory (interior mutability), retained-slot / static inventory of Model, layers and optimizers, consumer-count protocol and engine-state layering (no counter residue between passes)",
  "C16": "static analysis: constructor funnel + dominating assertions, no later write (MIR), equality reads exactly dimensions and values",
  "C17": "static analysis: linearity type system (Z/L/C/N) over backward closures and the engine's delta path; default-seed provenance",
  "C18": "static analysis: ownership-edge inventory over ADT field types, MIR writers of the edge list, closure captures, retained slots",
